@@ -5,6 +5,7 @@
 // Case kind "c28p": PiggyList / RandomInsertPiggyList alone, with small initial blocks, appended to from scheduled threads.
 #include "hcommon.h"
 #include "vsched.h"
+#include "c2x_sources.h"
 #include "souffle/RamTypes.h"
 #include "souffle/datastructure/EquivalenceRelation.h"
 #include "souffle/datastructure/PiggyList.h"
@@ -62,8 +63,7 @@ struct Step {
     int kind = S_INS;
     std::int32_t a = 0, b = 0;   // I/J: the pair; R: read kind and argument
     std::vector<std::vector<Pair>> threads;   // P
-    std::vector<std::uint8_t> sched;          // P
-    std::uint64_t tail = 1;                   // P
+    c2x::SchedSpec ss;                        // P
 };
 
 struct PiggyOp {
@@ -81,16 +81,10 @@ struct Case {
     // piggy
     int bits = 1, random = 0;
     std::vector<std::vector<PiggyOp>> pops;
-    std::vector<std::uint8_t> sched;
-    std::uint64_t tail = 1;
+    c2x::SchedSpec ss;
 
     std::string text() const {
         std::ostringstream os;
-        auto sch = [&](const std::vector<std::uint8_t>& s, std::uint64_t t) {
-            os << "schedule:";
-            for (auto b : s) os << " " << (int)b;
-            os << "\ntail: " << t << "\n";
-        };
         if (piggy) {
             os << "c28p bits=" << bits << " random=" << random << "\n";
             for (auto& t : pops) {
@@ -102,7 +96,7 @@ struct Case {
                 }
                 os << "\n";
             }
-            sch(sched, tail);
+            ss.write(os);
             return os.str();
         }
         os << "c28 fresh=" << fresh << "\nprobe:";
@@ -118,7 +112,7 @@ struct Case {
                     for (auto& p : t) os << " " << p.first << "," << p.second;
                     os << "\n";
                 }
-                sch(s.sched, s.tail);
+                s.ss.write(os);
             }
         }
         return os.str();
@@ -175,13 +169,8 @@ struct Case {
                     }
                     c.steps.back().threads.push_back(t);
                 }
-            } else if (w == "schedule:") {
-                int x;
-                auto& dst = (c.piggy || c.steps.empty()) ? c.sched : c.steps.back().sched;
-                while (ls >> x) dst.push_back((std::uint8_t)x);
-            } else if (w == "tail:") {
-                ls >> ((c.piggy || c.steps.empty()) ? c.tail : c.steps.back().tail);
-            }
+            } else
+                ((c.piggy || c.steps.empty()) ? c.ss : c.steps.back().ss).parseLine(w, ls);
         }
         if (c.bits < 0) c.bits = 0;
         if (c.bits > 8) c.bits = 8;
@@ -273,24 +262,27 @@ static std::string ps(const Pair& p) {
     return "(" + std::to_string(p.first) + "," + std::to_string(p.second) + ")";
 }
 
-static std::vector<Pair> collect(ER::iterator b, const ER::iterator& e, std::size_t bound, const std::string& what) {
+// failure texts are built lazily (W = callable returning std::string): the batteries run thousands of comparisons per case
+template <typename W>
+static std::vector<Pair> collect(ER::iterator b, const ER::iterator& e, std::size_t bound, W what) {
     std::vector<Pair> v;
     while (b != e) {
-        if (v.size() > bound) throw Fail{what + ": more than " + std::to_string(bound) + " pairs enumerated (range does not end)"};
+        if (v.size() > bound) throw Fail{what() + ": more than " + std::to_string(bound) + " pairs enumerated (range does not end)"};
         v.push_back({(*b)[0], (*b)[1]});
         ++b;
     }
     return v;
 }
 
-static void samePairs(std::vector<Pair> got, const std::vector<Pair>& exp, const std::string& what) {
+template <typename W>
+static void samePairs(std::vector<Pair> got, const std::vector<Pair>& exp, W what) {
     std::sort(got.begin(), got.end());
     for (std::size_t i = 1; i < got.size(); i++)
-        if (got[i] == got[i - 1]) throw Fail{what + ": pair " + ps(got[i]) + " listed twice"};
+        if (got[i] == got[i - 1]) throw Fail{what() + ": pair " + ps(got[i]) + " listed twice"};
     std::size_t i = 0, j = 0;
     while (i < got.size() || j < exp.size()) {
-        if (j == exp.size() || (i < got.size() && got[i] < exp[j])) throw Fail{what + ": spurious pair " + ps(got[i])};
-        if (i == got.size() || exp[j] < got[i]) throw Fail{what + ": missing pair " + ps(exp[j])};
+        if (j == exp.size() || (i < got.size() && got[i] < exp[j])) throw Fail{what() + ": spurious pair " + ps(got[i])};
+        if (i == got.size() || exp[j] < got[i]) throw Fail{what() + ": missing pair " + ps(exp[j])};
         i++, j++;
     }
 }
@@ -306,16 +298,33 @@ static bool readBattery(const ER& r, const EqModel& m, const std::vector<std::in
     std::sort(els.begin(), els.end());
     els.erase(std::unique(els.begin(), els.end()), els.end());
     els.erase(std::remove(els.begin(), els.end(), MINV), els.end());
+    // class of every lookup element (index into `classes`, -1 = not mentioned), so that the expectations are table look-ups
+    const auto classMap = m.classes();
+    std::map<std::int32_t, const std::vector<std::int32_t>*> classOf;
+    for (auto& c : classMap)
+        for (auto x : c.second) classOf[x] = &c.second;
+    auto related = [&](std::int32_t a, std::int32_t b) {
+        auto ia = classOf.find(a), ib = classOf.find(b);
+        return ia != classOf.end() && ib != classOf.end() && ia->second == ib->second;
+    };
+    auto anterior = [&](std::int32_t a) {
+        std::vector<Pair> v;
+        auto ia = classOf.find(a);
+        if (ia != classOf.end())
+            for (auto x : *ia->second) v.push_back({a, x});
+        return v;   // class members are ascending
+    };
+    using TT = souffle::Tuple<RamDomain, 2>;
     if (kind == 0 || kind == 3) {
         // (1) contains(a,b) <=> a ~ b and both were mentioned   (INT32_MIN may be an operand of contains: no "unbound" there)
         std::vector<std::int32_t> ce = els;
         if (m.has(MINV)) ce.push_back(MINV);
+        ER::operation_hints h;
         for (auto a : ce)
             for (auto b : ce) {
-                bool e = m.related(a, b);
+                const bool e = related(a, b);
                 if (r.contains(a, b) != e) throw Fail{tag + " contains" + ps({a, b}) + " = " + std::to_string(!e) + ", model says " + std::to_string(e)};
-                ER::operation_hints h;
-                if (r.contains(souffle::Tuple<RamDomain, 2>{a, b}, h) != e) throw Fail{tag + " contains(tuple" + ps({a, b}) + ") disagrees with the model"};
+                if (r.contains(TT{a, b}, h) != e) throw Fail{tag + " contains(tuple" + ps({a, b}) + ") disagrees with the model"};
             }
     }
     if (kind == 0 || kind == 1) {
@@ -327,42 +336,54 @@ static bool readBattery(const ER& r, const EqModel& m, const std::vector<std::in
     if (kind == 0 || kind == 2) {
         // (3) full iteration lists each related pair exactly once
         cache = true;
-        samePairs(collect(r.begin(), r.end(), N, tag + " iteration"), all, tag + " iteration");
+        auto w = [&] { return tag + " iteration"; };
+        samePairs(collect(r.begin(), r.end(), N, w), all, w);
     }
     if (kind == 0 || kind == 4) {
         cache = true;
-        auto g0 = r.getBoundaries<0>(souffle::Tuple<RamDomain, 2>{0, 0});
-        samePairs(collect(g0.begin(), g0.end(), N, tag + " getBoundaries<0>"), all, tag + " getBoundaries<0>");
-        samePairs(collect(r.lower_bound({MINV, MINV}), r.end(), N, tag + " lower_bound(unbound,unbound)"), all, tag + " lower_bound(unbound,unbound)");
+        {
+            auto w = [&] { return tag + " getBoundaries<0>"; };
+            auto g0 = r.getBoundaries<0>(TT{0, 0});
+            samePairs(collect(g0.begin(), g0.end(), N, w), all, w);
+            auto w2 = [&] { return tag + " lower_bound(unbound,unbound)"; };
+            samePairs(collect(r.lower_bound({MINV, MINV}), r.end(), N, w2), all, w2);
+        }
         for (auto a : els) {
             // (4) per-element ranges: exactly the pairs with that anterior
-            const auto expA = m.anterior(a);
-            auto g1 = r.getBoundaries<1>(souffle::Tuple<RamDomain, 2>{a, 0});
-            samePairs(collect(g1.begin(), g1.end(), N, tag + " getBoundaries<1>"), expA, tag + " getBoundaries<1>(" + std::to_string(a) + ",_)");
-            if (g1.empty() != expA.empty()) throw Fail{tag + " getBoundaries<1>(" + std::to_string(a) + ",_).empty() disagrees with the model"};
-            samePairs(collect(r.lower_bound({a, MINV}), r.end(), N, tag + " lower_bound(a,unbound)"), expA, tag + " lower_bound(" + std::to_string(a) + ",unbound)");
-            if (m.has(a)) samePairs(collect(r.anteriorIt(a), r.end(), N, tag + " anteriorIt"), expA, tag + " anteriorIt(" + std::to_string(a) + ")");
+            const auto expA = anterior(a);
+            auto w1 = [&] { return tag + " getBoundaries<1>(" + std::to_string(a) + ",_)"; };
+            auto g1 = r.getBoundaries<1>(TT{a, 0});
+            samePairs(collect(g1.begin(), g1.end(), N, w1), expA, w1);
+            if (g1.empty() != expA.empty()) throw Fail{w1() + ".empty() disagrees with the model"};
+            auto w2 = [&] { return tag + " lower_bound(" + std::to_string(a) + ",unbound)"; };
+            samePairs(collect(r.lower_bound({a, MINV}), r.end(), N, w2), expA, w2);
+            if (!expA.empty()) {
+                auto w3 = [&] { return tag + " anteriorIt(" + std::to_string(a) + ")"; };
+                samePairs(collect(r.anteriorIt(a), r.end(), N, w3), expA, w3);
+            }
             if (r.upper_bound({a, a}) != r.end()) throw Fail{tag + " upper_bound is documented to return end()"};
             for (auto b : els) {
                 // (4) per-pair ranges: exactly that pair, iff related
                 std::vector<Pair> expP;
-                if (m.related(a, b)) expP.push_back({a, b});
-                auto g2 = r.getBoundaries<2>(souffle::Tuple<RamDomain, 2>{a, b});
-                samePairs(collect(g2.begin(), g2.end(), N, tag + " getBoundaries<2>"), expP, tag + " getBoundaries<2>" + ps({a, b}));
-                samePairs(collect(r.lower_bound({a, b}), r.end(), N, tag + " lower_bound(a,b)"), expP, tag + " lower_bound" + ps({a, b}));
+                if (related(a, b)) expP.push_back({a, b});
+                auto w4 = [&] { return tag + " getBoundaries<2>" + ps({a, b}); };
+                auto g2 = r.getBoundaries<2>(TT{a, b});
+                samePairs(collect(g2.begin(), g2.end(), N, w4), expP, w4);
+                auto w5 = [&] { return tag + " lower_bound" + ps({a, b}); };
+                samePairs(collect(r.lower_bound({a, b}), r.end(), N, w5), expP, w5);
             }
         }
     }
     if (kind == 0 || kind == 6) {
         // closure(x): all pairs within x's class, once each
         cache = true;
-        for (auto& c : m.classes()) {
+        for (auto& c : classMap) {
             std::vector<Pair> expC;
             for (auto x : c.second)
                 for (auto y : c.second) expC.push_back({x, y});
-            std::sort(expC.begin(), expC.end());
             const std::int32_t el = c.second[(std::size_t)(arg < 0 ? 0 : arg) % c.second.size()];
-            samePairs(collect(r.closure(el), r.end(), N, tag + " closure"), expC, tag + " closure(" + std::to_string(el) + ")");
+            auto w = [&] { return tag + " closure(" + std::to_string(el) + ")"; };
+            samePairs(collect(r.closure(el), r.end(), N, w), expC, w);
         }
     }
     if (kind == 0 || kind == 5) {
@@ -374,15 +395,15 @@ static bool readBattery(const ER& r, const EqModel& m, const std::vector<std::in
         else
             ns = {0, 1, 2, 3, 7, 100, arg < 0 ? 4 : arg};
         for (int n : ns) {
-            const std::string what = tag + " partition(" + std::to_string(n) + ")";
+            auto w = [&] { return tag + " partition(" + std::to_string(n) + ")"; };
             auto chunks = r.partition((std::size_t)n);
             std::vector<Pair> got;
             for (auto& ch : chunks) {
-                auto part = collect(ch.begin(), ch.end(), N, what);
+                auto part = collect(ch.begin(), ch.end(), N, w);
                 got.insert(got.end(), part.begin(), part.end());
-                if (got.size() > N) throw Fail{what + ": the ranges list more pairs than the relation holds (overlap)"};
+                if (got.size() > N) throw Fail{w() + ": the ranges list more pairs than the relation holds (overlap)"};
             }
-            samePairs(got, all, what);
+            samePairs(got, all, w);
         }
     }
     return cache;
@@ -447,21 +468,23 @@ static Result runEqrel(const Case& c, vsched::ChoiceSource* overrideSrc) {
                         Pair p;
                         std::uint64_t inv, resp;
                     };
-                    std::vector<Rec> log;
-                    vsched::ByteSource bs(s.sched, s.tail);
-                    vsched::ChoiceSource* src = overrideSrc ? overrideSrc : &bs;
-                    vsched::Scheduler sch(n, src, overrideSrc ? 6000 : 60000);
+                    // one log per thread: if the step budget runs out the scheduler lets the threads run freely (and truly in
+                    // parallel), so nothing the bodies touch besides the relation may be shared
+                    std::vector<std::vector<Rec>> logs(n);
+                    std::uint64_t nins = 0;
+                    for (auto& t : s.threads) nins += t.size();
+                    auto own = s.ss.make(n, 60 * (nins ? nins : 1));
+                    vsched::ChoiceSource* src = overrideSrc ? overrideSrc : own.get();
+                    vsched::Scheduler sch(n, src, overrideSrc ? 6000 : (s.ss.pct > 0 ? 12000 : 60000));
                     sch.onPoint = [&](int tid, int kind, const void*) { res.sig = res.sig * 1099511628211ull + (std::uint64_t)(tid * 8 + kind + 1); };
                     std::vector<std::function<void()>> bodies;
-                    std::vector<std::size_t> done(n, 0);
                     for (int id = 0; id < n; id++) {
+                        logs[id].reserve(s.threads[id].size());
                         bodies.push_back([&, id] {
                             for (auto& p : s.threads[id]) {
-                                std::size_t idx = log.size();
-                                log.push_back(Rec{id, p, sch.step, 0});
+                                logs[id].push_back(Rec{id, p, sch.step, 0});
                                 A->insert(p.first, p.second);
-                                log[idx].resp = sch.step;
-                                done[id]++;
+                                logs[id].back().resp = sch.step;
                             }
                         });
                     }
@@ -472,8 +495,11 @@ static Result runEqrel(const Case& c, vsched::ChoiceSource* overrideSrc) {
                         res.inconclusive = true;
                         return res;
                     }
-                    for (int id = 0; id < n; id++)
-                        if (done[id] != s.threads[id].size()) throw Fail{tag + " thread " + std::to_string(id) + " did not finish its inserts"};
+                    std::vector<Rec> log;
+                    for (int id = 0; id < n; id++) {
+                        if (logs[id].size() != s.threads[id].size()) throw Fail{tag + " thread " + std::to_string(id) + " did not finish its inserts"};
+                        log.insert(log.end(), logs[id].begin(), logs[id].end());
+                    }
                     bool ch = false, big = false;
                     for (auto& t : s.threads)
                         for (auto& p : t) ch = ma.unite(p.first, p.second, &big) || ch;
@@ -561,8 +587,15 @@ static Result runPiggy(const Case& c, vsched::ChoiceSource* src) {
             std::uint64_t inv, resp;
         };
         std::vector<Done> log;
+        std::vector<std::vector<Done>> logs(n);   // per thread (see runEqrel)
         std::size_t total = 0;
         for (auto& t : c.pops) total += t.size();
+        for (int id = 0; id < n; id++) logs[id].reserve(c.pops[id].size());
+        auto mergeLogs = [&] {
+            // merged in invocation order
+            for (auto& l : logs) log.insert(log.end(), l.begin(), l.end());
+            std::stable_sort(log.begin(), log.end(), [](const Done& a, const Done& b) { return a.inv < b.inv; });
+        };
         if (!c.random) {
             souffle::PiggyList<std::int32_t> pl((std::size_t)c.bits);
             vsched::Scheduler sch(n, src, 40000);
@@ -571,8 +604,7 @@ static Result runPiggy(const Case& c, vsched::ChoiceSource* src) {
             for (int id = 0; id < n; id++)
                 bodies.push_back([&, id] {
                     for (auto& o : c.pops[id]) {
-                        std::size_t li = log.size();
-                        log.push_back(Done{id, o, 0, sch.step, 0});
+                        logs[id].push_back(Done{id, o, 0, sch.step, 0});
                         std::size_t idx;
                         if (o.kind == 'N') {
                             idx = pl.createNode();
@@ -580,8 +612,8 @@ static Result runPiggy(const Case& c, vsched::ChoiceSource* src) {
                             pl.get(idx) = o.val;
                         } else
                             idx = pl.append(o.val);
-                        log[li].idx = idx;
-                        log[li].resp = sch.step;
+                        logs[id].back().idx = idx;
+                        logs[id].back().resp = sch.step;
                     }
                 });
             auto verdict = n ? sch.run(bodies) : vsched::V_OK;
@@ -591,6 +623,7 @@ static Result runPiggy(const Case& c, vsched::ChoiceSource* src) {
                 res.inconclusive = true;
                 return res;
             }
+            mergeLogs();
             if (log.size() != total) throw Fail{"PiggyList: a thread did not finish"};
             if (pl.size() != total) throw Fail{"PiggyList: size() = " + std::to_string(pl.size()) + " after " + std::to_string(total) + " appends"};
             std::vector<char> seen(total, 0);
@@ -645,11 +678,10 @@ static Result runPiggy(const Case& c, vsched::ChoiceSource* src) {
             for (int id = 0; id < n; id++)
                 bodies.push_back([&, id] {
                     for (auto& o : c.pops[id]) {
-                        std::size_t li = log.size();
-                        log.push_back(Done{id, o, (std::size_t)o.idx, sch.step, 0});
+                        logs[id].push_back(Done{id, o, (std::size_t)o.idx, sch.step, 0});
                         vsched::Scheduler::yieldPoint();
                         pl.insertAt((std::size_t)o.idx, o.val);
-                        log[li].resp = sch.step;
+                        logs[id].back().resp = sch.step;
                     }
                 });
             auto verdict = n ? sch.run(bodies) : vsched::V_OK;
@@ -659,6 +691,7 @@ static Result runPiggy(const Case& c, vsched::ChoiceSource* src) {
                 res.inconclusive = true;
                 return res;
             }
+            mergeLogs();
             if (log.size() != total) throw Fail{"RandomInsertPiggyList: a thread did not finish"};
             if (pl.size() != total) throw Fail{"RandomInsertPiggyList: size() = " + std::to_string(pl.size()) + " after " + std::to_string(total) + " insertAt calls on distinct indices"};
             for (auto& d : log)
@@ -682,8 +715,10 @@ static Result runPiggy(const Case& c, vsched::ChoiceSource* src) {
 
 static Result runCase(const Case& c, vsched::ChoiceSource* overrideSrc = nullptr) {
     if (c.piggy) {
-        vsched::ByteSource bs(c.sched, c.tail);
-        return runPiggy(c, overrideSrc ? overrideSrc : &bs);
+        std::uint64_t nops = 0;
+        for (auto& t : c.pops) nops += t.size();
+        auto own = c.ss.make((int)c.pops.size(), 5 * (nops ? nops : 1));
+        return runPiggy(c, overrideSrc ? overrideSrc : own.get());
     }
     return runEqrel(c, overrideSrc);
 }
@@ -694,6 +729,7 @@ static void account(hc::Stats& st, const Case& c, const Result& r) {
         st.inconclusive["step_budget"]++;
         return;
     }
+    st.extra["hook_steps"] += r.steps;
     if (c.piggy) {
         st.cls(c.random ? "kind=random_insert_piggylist" : "kind=piggylist");
         if (r.overlap) st.cls("piggy_appends_interleaved");
@@ -836,13 +872,13 @@ int main(int argc, char** argv) {
                 std::vector<std::uint8_t> bytes;
                 for (std::size_t i = 0; i < dfs.depth; i++) bytes.push_back((std::uint8_t)dfs.stack[i].chosen);
                 if (rc.piggy) {
-                    rc.sched = bytes;
-                    rc.tail = 0;
+                    rc.ss.bytes = bytes;
+                    rc.ss.tail = 0;
                 } else
                     for (auto& s : rc.steps)
                         if (s.kind == S_PAR) {
-                            s.sched = bytes;
-                            s.tail = 0;
+                            s.ss.bytes = bytes;
+                            s.ss.tail = 0;
                         }
                 account(st, rc, r);
                 if (!r.ok) {
@@ -871,9 +907,14 @@ int main(int argc, char** argv) {
     std::uint64_t counter = 0;
     bool ok = rc::check("eqrel = closure of inserted pairs", [&] {
         Case c;
-        auto genSched = [&](std::vector<std::uint8_t>& s, std::uint64_t& tail) {
-            s = *rc::gen::container<std::vector<std::uint8_t>>(rc::gen::arbitrary<std::uint8_t>());
-            tail = *hc::R<std::uint64_t>(1, 1u << 30);
+        auto genSched = [&](c2x::SchedSpec& ss) {
+            ss.tail = *hc::R<std::uint64_t>(1, 1u << 30);
+            if (*hc::R(0, 2) == 0)
+                ss.pct = *hc::R(1, 6);
+            else {
+                ss.bytes = *rc::gen::container<std::vector<std::uint8_t>>(rc::gen::arbitrary<std::uint8_t>());
+                ss.den = 2 << *hc::R(0, 5);
+            }
         };
         if (*hc::R(0, 5) == 0) {
             // ---- PiggyList alone
@@ -898,7 +939,7 @@ int main(int argc, char** argv) {
                     c.pops.push_back(l);
                 }
             }
-            genSched(c.sched, c.tail);
+            genSched(c.ss);
         } else {
             // ---- eqrel history
             c.fresh = *hc::R(0, 8) == 0;
@@ -936,15 +977,16 @@ int main(int argc, char** argv) {
                     s.b = p.second;
                 } else if (k < 62) {
                     s.kind = S_PAR;
-                    const int n = *hc::R(1, 9);
-                    const int maxOps = n <= 4 ? 5 : 3;
+                    static const int nthr[] = {1, 2, 2, 2, 2, 3, 3, 3, 4, 4, 5, 6, 7, 8};
+                    const int n = nthr[*hc::R(0, 14)];
+                    const int maxOps = n <= 4 ? 4 : 3;
                     for (int t = 0; t < n; t++) {
                         std::vector<Pair> l;
                         const int m = *hc::R(1, maxOps);
                         for (int j = 0; j < m; j++) l.push_back(pr());
                         s.threads.push_back(l);
                     }
-                    genSched(s.sched, s.tail);
+                    genSched(s.ss);
                 } else if (k < 68)
                     s.kind = S_ALL;
                 else if (k < 75)
